@@ -28,7 +28,7 @@ func genC12(tier string, seed int64) (*Family, error) {
 	if tier == "thorough" {
 		n = 4
 	}
-	lists := [][]string{{"r0"}, {"r2", "r0"}, {"r1", "r2", "r0"}, {"r0", "zz"}, {"zz", "r1"}, {"r2", "zz", "r1"}, {"r1", "r0", "zz"}, {"zz"}, {}, {"zz", "yy"}}
+	lists := [][]string{{"r0"}, {"r2", "r0"}, {"r1", "r2", "r0"}, {"r0", "zz"}, {"zz", "r1"}, {"r2", "zz", "r1"}, {"r1", "r0", "zz"}, {"zz"}, {}, {"zz", "yy"}, {"zz", "r2", "r0", "r1"}, {"r1", "zz", "r0", "r2"}}
 	if tier == "thorough" {
 		lists = append(lists, []string{"r3", "r1", "r0", "r2"}, []string{"r0", "r1", "r2"}, []string{"r2", "r1"}, []string{"r3", "zz", "r0", "r1"})
 	}
